@@ -111,7 +111,16 @@ def charset(op: Any, arg: Any, is_bytes: bool, flags: int) -> FrozenSet[str]:
     return frozenset(out)
 
 
+_PREV_WORD = -1  # marker inside a DFA state: the previously consumed character was a word character (for \\b / \\B)
+
+
+def _is_word(ch: str) -> bool:
+    return ch == "_" or ch.isalnum()
+
+
 class NFA:
+    has_boundary = False
+
     def __init__(self) -> None:
         self.n = 0
         self.eps: Dict[int, List[Tuple[int, str]]] = {}  # state -> [(target, kind)] kind: '' | 'BEGIN' | 'END'
@@ -172,6 +181,12 @@ def _build(nfa: NFA, items: Sequence[Tuple[Any, Any]], start: int, is_bytes: boo
                 nfa.add_eps(cur, nxt, "BEGIN")
             elif "END" in an:
                 nfa.add_eps(cur, nxt, "END")
+            elif an.endswith("NON_BOUNDARY"):
+                nfa.add_eps(cur, nxt, "NONBOUNDARY")
+                nfa.has_boundary = True
+            elif an.endswith("BOUNDARY"):
+                nfa.add_eps(cur, nxt, "BOUNDARY")
+                nfa.has_boundary = True
             else:
                 raise AnalysisError(f"regex anchor not modelled: {an}")
             cur = nxt
@@ -199,8 +214,10 @@ class Lang:
         self.final = _build(self.nfa, list(self.tree), s, self.is_bytes, self.flags)
         self._dfa: Dict[FrozenSet[int], Dict[str, FrozenSet[int]]] = {}
 
-    def _closure(self, states: Iterable[int], at_begin: bool, at_end: bool) -> FrozenSet[int]:
-        seen = set(states)
+    def _closure(self, states: Iterable[int], at_begin: bool, at_end: bool, boundary: Optional[bool] = None) -> FrozenSet[int]:
+        """eps-closure. `boundary`: None = the next character is not known yet (\\b / \\B edges wait); True / False = we are
+        (not) at a word boundary, so the matching kind of edge may be taken."""
+        seen = set(x for x in states if x != _PREV_WORD)
         todo = list(seen)
         while todo:
             q = todo.pop()
@@ -209,6 +226,9 @@ class Lang:
                     continue
                 if kind == "END" and not at_end:
                     continue
+                if kind in ("BOUNDARY", "NONBOUNDARY"):
+                    if boundary is None or (kind == "BOUNDARY") != boundary:
+                        continue
                 if t not in seen:
                     seen.add(t)
                     todo.append(t)
@@ -220,11 +240,20 @@ class Lang:
     def step(self, S: FrozenSet[int], ch: str) -> FrozenSet[int]:
         row = self._dfa.setdefault(S, {})
         if ch not in row:
-            nxt = {t for q in S for cs, t in self.nfa.trans.get(q, []) if ch in cs}
-            row[ch] = self._closure(nxt, False, False)
+            src: Iterable[int] = S
+            if self.nfa.has_boundary:
+                prev = _PREV_WORD in S
+                src = self._closure(S, False, False, boundary=(prev != _is_word(ch)))
+            nxt = {t for q in src for cs, t in self.nfa.trans.get(q, []) if ch in cs}
+            res = self._closure(nxt, False, False)
+            if self.nfa.has_boundary and _is_word(ch) and res:
+                res = frozenset(res | {_PREV_WORD})
+            row[ch] = res
         return row[ch]
 
     def accepting(self, S: FrozenSet[int], at_begin: bool = False) -> bool:
+        if self.nfa.has_boundary:
+            return self.final in self._closure(S, at_begin, True, boundary=(_PREV_WORD in S))
         return self.final in self._closure(S, at_begin, True)
 
     # -- inclusion of an abstract string ------------------------------------------------------
